@@ -125,6 +125,8 @@ def rows_to_drift(ck, rows, keep_case=True):
         if keep_case:
             d["witness"] = r.get("case")
         ck.drift.append(d)
+    # vlib prints only the first five DRIFT lines: one line with every signature
+    print("EXT-DRIFT-SIGNATURES: " + json.dumps(sorted(f"{t}:{f}" for (t, f) in first)))
     # evidence keeps only the number of drift entries: keep the entries themselves (trimmed) next to the coverage
     ck.cov["drift_details"] = [json.loads(json.dumps(d, default=str)[:4000]) if len(json.dumps(d, default=str)) <= 4000
                                else {k: d[k] for k in ("class", "field", "expected", "observed")} for d in ck.drift]
